@@ -92,6 +92,8 @@ impl SubscriptionHub {
         let mut to_prune = Vec::new();
         {
             let entries = self.entries.lock().await;
+            #[cfg(feature = "verif-hooks")]
+            verif_hooks::publish_locked(topic, &data);
             for entry in entries.iter() {
                 if entry.topic != topic {
                     continue;
@@ -135,6 +137,26 @@ impl SubscriptionHub {
     #[allow(dead_code)] // Paired with `len()` for clippy; not called in-tree yet.
     pub async fn is_empty(&self) -> bool {
         self.entries.lock().await.is_empty()
+    }
+}
+
+/// Verification hook: lets a harness observe the publication order (the moment a
+/// `publish` holds the hub lock, before any fan-out). Inert unless an observer is set.
+#[cfg(feature = "verif-hooks")]
+pub mod verif_hooks {
+    use std::sync::RwLock;
+
+    pub type PublishObserver = Box<dyn Fn(&str, &serde_json::Value) + Send + Sync>;
+    static OBSERVER: RwLock<Option<PublishObserver>> = RwLock::new(None);
+
+    pub fn set_publish_observer(o: Option<PublishObserver>) {
+        *OBSERVER.write().unwrap_or_else(|e| e.into_inner()) = o;
+    }
+
+    pub(super) fn publish_locked(topic: &str, data: &serde_json::Value) {
+        if let Some(o) = OBSERVER.read().unwrap_or_else(|e| e.into_inner()).as_ref() {
+            o(topic, data);
+        }
     }
 }
 
